@@ -95,19 +95,15 @@ func (s *Store) Cancel(ctx context.Context, id int64) error {
 	s.mu.Lock()
 	defer s.mu.Unlock()
 
-	var index int
 	for i, timeout := range s.timeouts {
 		if timeout.ID != id {
 			continue
 		}
 
-		index = i
+		s.timeouts = append(s.timeouts[:i], s.timeouts[i+1:]...)
 		break
 	}
 
-	left := s.timeouts[:index]
-	right := s.timeouts[index+1 : len(s.timeouts)]
-	s.timeouts = append(left, right...)
 	return nil
 }
 
